@@ -161,6 +161,28 @@ def grid2d_containers(mask, pixel_scales, origin, coef, custom):
     n = coords.shape[0]
     p = _profile(aa, coef)
 
+    # "for every user function": one that fills and returns its own work buffer on every call.  The array returned for the first grid is
+    # the result for the first grid, also after the function has been called again (entry k still belongs to coordinate k of ITS input)
+    class Reuse:
+        def __init__(self):
+            self.buf, self.c = None, list(coef)
+
+        @aa.grid_dec.to_array
+        def image(self, grid, *args, **kwargs):
+            v = _f1(self.c, np.array(grid, dtype=float).reshape(-1, 2))
+            if self.buf is None or self.buf.shape != v.shape:
+                self.buf = np.empty_like(v)
+            self.buf[...] = v
+            return self.buf
+    ru = Reuse()
+    first = ru.image(grid)
+    want_first = _f1(coef, coords)
+    ru.c = [2.0 * v + 1.0 for v in coef]
+    ru.image(grid)
+    if np.asarray(first.slim, dtype=float).shape != want_first.shape or not _close(np.asarray(first.slim, dtype=float), want_first):
+        return ("to_array: the container returned for the first call changed when the user function (which re-uses its return buffer) was "
+                "called again: now %r, f(coordinates) was %r" % (np.asarray(first.slim, dtype=float)[:3].tolist(), want_first[:3].tolist()))
+
     def one(res, cls, want, label):
         if not isinstance(res, cls):
             return "%s: result is %s, want %s" % (label, type(res).__name__, cls.__name__)
